@@ -27,6 +27,7 @@ Over M5b `Controls` (post-solve pass, presolve pass without rules, change tracke
 -/
 import WntrModel.Model.Controls
 import WntrModel.Lemmas.ControlsPass
+import WntrModel.Lemmas.TankRun
 import WntrModel.Props.C06
 import Mathlib.Tactic.Ring
 import Mathlib.Tactic.Linarith
@@ -37,6 +38,36 @@ open Wntr.Tank Wntr.Controls
 
 /-! ### the post-solve pass -/
 
+/-- last writer wins, for the list of triggered controls as `check()` returned it -/
+theorem runPass_last_writer (due : List Ctl) (ls : Links) (c : Ctl) (hc : c ∈ due) (hi : c.act.link < ls.length) :
+    fieldAt (runPass due ls) c.act.link c.act.field = some c.act.value
+    ∨ ∃ d ∈ due, c.prio ≤ d.prio ∧ d.act.link = c.act.link ∧ d.act.field = c.act.field
+        ∧ d.act.value ≠ c.act.value
+        ∧ fieldAt (runPass due ls) c.act.link c.act.field = some d.act.value := by
+  have hmem : c ∈ sortPrio due := (sortPrio_mem _ c).mpr hc
+  obtain ⟨l1, d, l2, e, hd, hn⟩ :=
+    exists_last_writer (sortPrio due) c.act.link c.act.field ⟨c, hmem, rfl, rfl⟩
+  have hdm : d ∈ sortPrio due := by rw [e]; simp
+  have hdf := (sortPrio_mem _ d).mp hdm
+  have hfin : fieldAt (runPass due ls) c.act.link c.act.field = some d.act.value := by
+    have := runList_last_writer l1 l2 d ls (by rw [hd.1]; exact hi) (by rw [hd.1, hd.2]; exact hn)
+    rw [hd.1, hd.2] at this
+    unfold runPass
+    rw [e]
+    exact this
+  by_cases hv : d.act.value = c.act.value
+  · left; rw [hfin, hv]
+  · right
+    refine ⟨d, hdf, ?_, hd.1, hd.2, hv, hfin⟩
+    have hcl : c ∈ l1 ++ d :: l2 := e ▸ hmem
+    rcases List.mem_append.mp hcl with h1 | h2
+    · have hs := sortPrio_sorted due
+      rw [e] at hs
+      exact sorted_append_le l1 (d :: l2) hs c d h1 (List.mem_cons_self)
+    · rcases List.mem_cons.mp h2 with h3 | h3
+      · exact absurd (h3 ▸ rfl) hv
+      · exact absurd ⟨rfl, rfl⟩ (hn c h3)
+
 /-- `postsolve_last_writer`: for arbitrary control lists and any truth assignment of the conditions on the solved state -/
 theorem postsolve_last_writer (holds : Ctl → Bool) (cs : List Ctl) (ls : Links) (c : Ctl) (hc : c ∈ cs)
     (hh : holds c = true) (hi : c.act.link < ls.length) :
@@ -44,30 +75,11 @@ theorem postsolve_last_writer (holds : Ctl → Bool) (cs : List Ctl) (ls : Links
     ∨ ∃ d ∈ cs, holds d = true ∧ c.prio ≤ d.prio ∧ d.act.link = c.act.link ∧ d.act.field = c.act.field
         ∧ d.act.value ≠ c.act.value
         ∧ fieldAt (postsolve holds cs ls) c.act.link c.act.field = some d.act.value := by
-  have hmem : c ∈ sortPrio (cs.filter holds) := (sortPrio_mem _ c).mpr (List.mem_filter.mpr ⟨hc, hh⟩)
-  obtain ⟨l1, d, l2, e, hd, hn⟩ :=
-    exists_last_writer (sortPrio (cs.filter holds)) c.act.link c.act.field ⟨c, hmem, rfl, rfl⟩
-  have hdm : d ∈ sortPrio (cs.filter holds) := by rw [e]; simp
-  have hdf := List.mem_filter.mp ((sortPrio_mem _ d).mp hdm)
-  have hfin : fieldAt (postsolve holds cs ls) c.act.link c.act.field = some d.act.value := by
-    have := runList_last_writer l1 l2 d ls (by rw [hd.1]; exact hi) (by rw [hd.1, hd.2]; exact hn)
-    rw [hd.1, hd.2] at this
-    unfold postsolve runPass
-    rw [e]
-    exact this
-  by_cases hv : d.act.value = c.act.value
-  · left; rw [hfin, hv]
+  rcases runPass_last_writer (cs.filter holds) ls c (List.mem_filter.mpr ⟨hc, hh⟩) hi with h | ⟨d, hd, h1, h2, h3, h4, h5⟩
+  · left; exact h
   · right
-    refine ⟨d, hdf.1, hdf.2, ?_, hd.1, hd.2, hv, hfin⟩
-    -- c sits before d in the sorted list (it hits the same target and d is the last writer)
-    have hcl : c ∈ l1 ++ d :: l2 := e ▸ hmem
-    rcases List.mem_append.mp hcl with h1 | h2
-    · have hs := sortPrio_sorted (cs.filter holds)
-      rw [e] at hs
-      exact sorted_append_le l1 (d :: l2) hs c d h1 (List.mem_cons_self)
-    · rcases List.mem_cons.mp h2 with h3 | h3
-      · exact absurd (h3 ▸ rfl) hv
-      · exact absurd ⟨rfl, rfl⟩ (hn c h3)
+    have := List.mem_filter.mp hd
+    exact ⟨d, this.1, this.2, h1, h2, h3, h4, h5⟩
 
 /-- two conflicting triggered controls: the one of higher priority wins whatever the registration order -/
 example :
@@ -345,5 +357,37 @@ theorem two_thresholds_time_order (pi : Rat) (tk : Tank) (hcyl : tk.curve = none
       | none => rfl
       | some qq => by_cases hz : (qq == 0) = true <;> simp [hz]
     · rfl
+
+/-! ### the run: every reported step is a post-solve fixpoint -/
+
+open Wntr.TankRun in
+/-- `reported_only_after_quiet_postsolve`: along the whole run (M5c `TankRun.run`, arbitrary `solve`), every saved row was
+saved right after a post-solve pass, evaluated on the solution of the last solve of that step, that changed nothing the
+tracker watches. -/
+theorem reported_only_after_quiet_postsolve (cfg : Cfg) (n : Nat) (links : Links) (heads lasts : List Rat) :
+    ∀ r ∈ (run cfg n (init links heads lasts)).rows, Quiet cfg r :=
+  run_all_quiet cfg n _ (by simp [init])
+
+open Wntr.TankRun in
+/-- hence `postsolve_fixpoint` / last-writer-wins apply to EVERY reported step: for every control triggered on the reported
+solution, its target attribute holds its value (or that of a triggered control of priority ≥ on the same target commanding
+otherwise), and what is reported for every tracked target is what the solve of that step used. -/
+theorem reported_consistent_along_run (cfg : Cfg) (n : Nat) (links : Links) (heads lasts : List Rat) :
+    ∀ r ∈ (run cfg n (init links heads lasts)).rows,
+      (∀ w ∈ cfg.tracked, observe r.before w = observe r.links w)
+      ∧ ∀ c ∈ r.due, c.act.link < r.before.length →
+          fieldAt r.links c.act.link c.act.field = some c.act.value
+          ∨ ∃ d ∈ r.due, c.prio ≤ d.prio ∧ d.act.link = c.act.link ∧ d.act.field = c.act.field
+              ∧ d.act.value ≠ c.act.value ∧ fieldAt r.links c.act.link c.act.field = some d.act.value := by
+  intro r hr
+  obtain ⟨h1, h2, _⟩ := reported_only_after_quiet_postsolve cfg n links heads lasts r hr
+  constructor
+  · intro w hw
+    unfold changed at h2
+    rw [List.any_eq_false] at h2
+    simpa using h2 w hw
+  · intro c hc hi
+    rw [h1]
+    exact runPass_last_writer r.due r.before c hc hi
 
 end Wntr.C05
